@@ -71,7 +71,11 @@ def classify(h, res):
             v["status"] = "discharged"
         return v
     # FAILED
-    if real:
+    internal = [c for c in real if not c["desc"].startswith("OBL:") and "::verif_" in (c.get("loc") or "")]
+    if internal:
+        v["status"], v["reason"] = "undecided", "harness-internal check failed (bug in /verif harness code, not in /repo): %s at %s" % (
+            internal[0]["desc"], internal[0].get("loc"))
+    elif real:
         v["status"] = "failed"
         v["failed"] = [dict(desc=c["desc"], loc=c.get("loc"), id=c["id"]) for c in real]
     elif unwind:
@@ -118,6 +122,8 @@ def run_harnesses(snap, harnesses, src_hash, contracts_hash, logdir, progress=No
             results[h["name"]] = c
         else:
             todo.append(h)
+    for h in harnesses:
+        h["_full"] = full_name(h)  # resolve before the worker threads start
     todo.sort(key=lambda h: -h.get("cost", 10))
     q = queue.Queue()
     for h in todo:
@@ -133,7 +139,7 @@ def run_harnesses(snap, harnesses, src_hash, contracts_hash, logdir, progress=No
             except queue.Empty:
                 return
             tdir = tdirs.setdefault(h["crate"], os.path.join(scratch(), "target-%d-%s" % (wid, h["crate"])))
-            cmd = BASE_ARGS + ["--target-dir", tdir, "--harness", full_name(h), "--exact"] + h.get("args", [])
+            cmd = BASE_ARGS + ["--target-dir", tdir, "--harness", h.get("_full") or full_name(h), "--exact"] + h.get("args", [])
             res = run(cmd, cwd=crate_dir(snap, h["crate"]), timeout=int(os.environ.get("VERIF_DEV_TIMEOUT", h.get("timeout", 600))), mem_kb=MEM_LIMIT_KB,
                       log=os.path.join(logdir, h["name"].replace("::", "__") + ".log"))
             v = classify(h, res)
